@@ -31,14 +31,19 @@ def run(tier, seed, replay=None):
     pert = core.gen_perturbed(seed, 150 if tier == "quick" else 4000, 600, "xd", fx)
     srcs += pert
     srcs += [core.damaged(rng, rng.pick(fx)) for _ in range(60 if tier == "quick" else 1500)]
-    srcs += ["#let x = 1\n", "", " \n ", "1. @b[b]$1$\n  \\*\n", "    / T: a\n      b\n", "é中\n"]
+    srcs += ["#let x = 1\n", "", " \n ", "1. @b[b]$1$\n  \\*\n", "    / T: a\n      b\n", "é中\n",
+             # item bodies that span lines, at several depths and marker kinds
+             "/ Term: first line\n  second line\n", "  / Key: value\n    continued\n\n    - nested item\n\nafter\n",
+             "- first\n  second\n  - inner a\n    inner b\n+ one\n  two\n", "text\n\n  + a *b*\n    c $x$\n    / t: u\n      v\n"]
     cs = []
     for i, s in enumerate(srcs):
         for (a, b) in krange.gen_ranges(rng, s, 3 if tier == "quick" else 8):
             cs.append(([80, 20, 0][i % 3], [2, 4, 1][i % 3], a, b, s))
     # regressions of repaired defects run first
     cs = [(80, 2, 3, 16, "$ mat(;,;,11,,) $\n"), (80, 2, 12, 12, "/ a: // c\n\n  \n    b\n"),
-          (80, 2, 12, 14, "1. @b[b]$1$\n  \\*\n"), (80, 2, 1, 4, "#(2)w"), (80, 2, 2, 5, "$#(2)w$")] + cs
+          (80, 2, 12, 14, "1. @b[b]$1$\n  \\*\n"), (80, 2, 1, 4, "#(2)w"), (80, 2, 2, 5, "$#(2)w$"),
+          (80, 2, 30, 50, "/ 4:\n  // 4\n    / 44: // 44\n          444\n\n    / 5: x\n"),
+          (80, 2, 8, 21, "$ sqrt(#text(red)[1], y) $\n"), (20, 4, 3, 12, "$ #f(1, 2)[x] + #[a *b*] $\n")] + cs
     if replay and isinstance(replay.get("input"), dict) and "source" in replay["input"]:
         i = replay["input"]
         cs.insert(0, (i.get("width", 80), i.get("tab", 2), i["start"], i["end"], i["source"]))
